@@ -1222,6 +1222,26 @@ public:
   FilteredDirectoryContentsTask(StringRef path, StringList&& filters)
       : path(path), filters(std::move(filters))
       , directoryValue(BuildValue::makeInvalid()) {}
+
+  static bool isResultValid(StringRef path, const StringList& filters,
+                            const BuildValue& value) {
+    // Anything but a listing (a missing, non-directory or failed input) is
+    // decided by the dependencies on the node and its stat information.
+    if (!value.isFilteredDirectoryContents())
+      return true;
+
+    // The stat information of a directory need not change when entries are
+    // added or removed (restored or coarse modification times, checksum-only
+    // file system), so list the current filtered contents and compare the
+    // lists, as DirectoryContentsTask does.
+    std::vector<std::string> cur;
+    (void)getFilteredContents(path, filters, cur);
+
+    auto prev = value.getDirectoryContents();
+    return cur.size() == prev.size() &&
+      std::equal(cur.begin(), cur.end(), prev.begin(),
+                 [](const std::string& a, StringRef b) { return b == a; });
+  }
 };
 
 
@@ -1842,7 +1862,12 @@ std::unique_ptr<Rule> BuildSystemEngineDelegate::lookupRule(const KeyType& keyDa
         BinaryDecoder decoder(patterns);
         return new FilteredDirectoryContentsTask(path, StringList(decoder));
       },
-      /*IsValid=*/ nullptr
+      /*IsValid=*/ [path, patterns](BuildEngine& engine, const Rule& rule,
+                                    const ValueType& value) -> bool {
+        BinaryDecoder decoder(patterns);
+        return FilteredDirectoryContentsTask::isResultValid(
+            path, StringList(decoder), BuildValue::fromData(value));
+      }
     ));
   }
 
